@@ -48,8 +48,74 @@ func Scenarios() []Scenario {
 	}
 }
 
+// PairAlphabet: client programs whose pairwise interleavings are explored systematically (every unordered pair, each
+// program on its own thread), over the tree {/a (dir), /a/f, /g}. Every element of a program is ONE API call, so that
+// the calls themselves are the unit of linearizability (a composite like open+write+close is not atomic on any file system).
+func PairAlphabet() [][]ops.Op {
+	return [][]ops.Op{
+		{{K: "mkdir", P: "/a/d"}},
+		{{K: "create", P: "/a/n"}},
+		{{K: "hopen", P: "/a/f", N: os.O_RDWR, H: 0}, {K: "hwrite", H: 0, C: "zz"}, {K: "hclose", H: 0}},
+		{{K: "remove", P: "/a/f"}},
+		{{K: "remove", P: "/a"}},
+		{{K: "removeall", P: "/a"}},
+		{{K: "rename", P: "/a", Q: "/b"}},
+		{{K: "rename", P: "/a/f", Q: "/a/h"}},
+		{{K: "rename", P: "/g", Q: "/a/g"}},
+		{{K: "chmod", P: "/a/f", N: 0o600}},
+		{{K: "mkdirall", P: "/a/d/e"}},
+		{{K: "stat", P: "/a/f"}},
+		{{K: "hopen", P: "/a", N: os.O_RDONLY, H: 0}, {K: "hlist", H: 0}, {K: "hclose", H: 0}},
+	}
+}
+
+func progString(p []ops.Op) string {
+	parts := []string{}
+	for _, o := range p {
+		parts = append(parts, o.String())
+	}
+	return strings.Join(parts, "; ")
+}
+
+// PairScenarios: one scenario per unordered pair (including a program paired with itself).
+func PairScenarios() []Scenario {
+	al := PairAlphabet()
+	setup := []ops.Op{{K: "mkdir", P: "/a"}, {K: "put", P: "/a/f", C: "x"}, {K: "put", P: "/g", C: "y"}}
+	out := []Scenario{}
+	reslot := func(p []ops.Op, slot int) []ops.Op {
+		q := append([]ops.Op(nil), p...)
+		for i := range q {
+			if strings.HasPrefix(q[i].K, "h") {
+				q[i].H = slot
+			}
+		}
+		return q
+	}
+	observer := func(p []ops.Op) bool { return p[0].K == "stat" || (p[0].K == "hopen" && p[0].N == os.O_RDONLY) }
+	for i := range al {
+		for j := i; j < len(al); j++ {
+			if observer(al[i]) && observer(al[j]) {
+				continue
+			}
+			out = append(out, Scenario{Name: fmt.Sprintf("P%02d-%02d[%s || %s]", i, j, progString(al[i]), progString(al[j])), Cfg: rig.Config{RecordSize: 20}, Setup: setup,
+				Threads: [][]ops.Op{reslot(al[i], 0), reslot(al[j], 1)}})
+		}
+	}
+	// the same parent/child conflicts with an empty parent (Remove succeeds)
+	setup2 := []ops.Op{{K: "mkdir", P: "/a"}}
+	for _, parentOp := range []ops.Op{{K: "remove", P: "/a"}, {K: "rename", P: "/a", Q: "/b"}, {K: "removeall", P: "/a"}} {
+		for _, childOp := range []ops.Op{{K: "mkdir", P: "/a/d"}, {K: "create", P: "/a/n"}, {K: "mkdirall", P: "/a/d/e"}} {
+			out = append(out, Scenario{Name: fmt.Sprintf("Q[%s || %s]", parentOp, childOp), Cfg: rig.Config{RecordSize: 20}, Setup: setup2,
+				Threads: [][]ops.Op{{parentOp}, {childOp}}})
+		}
+	}
+	return out
+}
+
+func AllScenarios() []Scenario { return append(Scenarios(), PairScenarios()...) }
+
 func scenarioByName(n string) *Scenario {
-	for _, s := range Scenarios() {
+	for _, s := range AllScenarios() {
 		if s.Name == n {
 			return &s
 		}
@@ -74,6 +140,16 @@ func callObs(st *rig.Stack, o ops.Op) string {
 			n = 0
 		}
 		return fmt.Sprintf("%s|%v", rig.DataKey(buf[:n]), errClass(ignoreEOF(err)))
+	case "hlist":
+		h := st.GetHandle(o.H)
+		if h == nil {
+			return "nohandle"
+		}
+		names, err := h.F.Readdirnames(-1)
+		if err != nil {
+			return "err"
+		}
+		return strings.Join(uniqSorted(names), ",")
 	case "hreadall":
 		h := st.GetHandle(o.H)
 		if h == nil {
